@@ -6,7 +6,7 @@ import os, sys
 
 GEN = ['gen_log2_64.json', 'gen_log2_32.json', 'gen_segsqrt.json', 'gen_segcnst.json']
 M64 = 2 ** 64
-PAR = 6
+PAR = 8
 
 # ------------------------------------------------------------------ python reference of the segment sizes (oracle side only)
 def seg_sizes(F, L, upto):
@@ -47,7 +47,7 @@ def gen_index_cases(ctx, scale):
     cases.append('lg64 0'); cases.append('lg32 0')
     # exhaustive prefixes (range lines of 1024 indexes)
     blk = 1024
-    ex = {('sq', 0): 20, ('sq', 3): 17, ('sq', 1): 15, ('sq', 2): 15, ('sq', 5): 15, ('sq', 8): 14, ('sq', 16): 13,
+    ex = {('sq', 0): 20, ('sq', 3): 16, ('sq', 1): 14, ('sq', 2): 14, ('sq', 5): 14, ('sq', 8): 13, ('sq', 16): 13,
           ('cn', 0): 20, ('cn', 5): 20, ('cn', 3): 17, ('cn', 12): 16}
     if thorough:
         ex = {('sq', 0): 24, ('sq', 3): 22, ('sq', 1): 20, ('sq', 2): 20, ('sq', 5): 20, ('sq', 8): 19, ('sq', 16): 18,
@@ -318,7 +318,7 @@ def run(ctx):
     ctx.coverage['histories_with_growth_while_nonempty'] = sum(1 for c in ctx.nontrivial if c.startswith('hist'))
     return ctx.finish(rule=RULE)
 
-RULE = ('cases = Log2 on every 2^k/2^k+-1/random; exhaustive index prefixes 0..2^20 (sqrt L=0, cnst L=0,5; 2^13..2^17 for other L; '
+RULE = ('cases = Log2 on every 2^k/2^k+-1/random; exhaustive index prefixes 0..2^20 (sqrt L=0, cnst L=0,5; 2^13..2^16 for other L; '
         '2^24 thorough) as range lines of 1024 consecutive indexes; aimed indexes around every 2^k, every change of logItemCount '
         '(index1 = 2^m), segment starts, and the top of the proved range for L in 0..16,20,31..33,47,48,62,63; inverse direction on random slots; '
         'random grow/shrink histories on the real container (both sizing functions, L in 0..5) aimed at segment boundaries; '
